@@ -3,8 +3,8 @@
    preempting_returns_to_zero (DecPreemptingResource on release / node removal / application removal) belongs to
    the release path and is left to the core engine. *)
 From Coq Require Import List ZArith NArith Bool.
-From YK Require Import Base.Res Preempt.Snapshot Preempt.Victims Preempt.ReqNode Preempt.Quota Preempt.Spec
-  Preempt.GuaranteeProofs Preempt.QuotaProofs.
+From YK Require Import Base.Res Preempt.Snapshot Preempt.Victims Preempt.ReqNode Preempt.Quota Preempt.Timing Preempt.Spec
+  Preempt.GuaranteeProofs Preempt.QuotaProofs Preempt.TimingProofs.
 Import ListNotations.
 Open Scope Z_scope.
 
@@ -106,6 +106,39 @@ Theorem rearm_time_is_now_plus_delay : forall now enabled q t s,
   s = now + qt_delay t /\ qt_delay t <> 0 /\ enabled = true /\ q_managed q = true.
 Proof. exact rearm_is_now_plus_delay. Qed.
 Print Assumptions rearm_time_is_now_plus_delay.
+
+(* "... and the delay elapsed": over ALL histories of one queue (reloads of max and delay through setPreemptionTime in
+   every branch, usage increments with the re-arming of IncAllocatedResource, any other change of the queue, acquisitions
+   and completions, time passing) tryAcquirePreemption says yes only when the delay in force has elapsed since the change
+   that armed the start time; ts_arm is the ghost variable "time of the change after which a start time appeared"
+   (arm_upd), the same ghost the oracle maintains on the start times the implementation shows (Oracles/PreemptCheck.v,
+   time_ok_step) *)
+Theorem acquired_only_after_delay : forall ops q delay now0,
+  let s := trun true (tinit q delay now0) ops in
+  fst (tryAcquire (ts_now s) (ts_q s) (ts_t s)) = true ->
+  delay_elapsed (ts_arm s) (qt_delay (ts_t s)) (ts_now s) = true /\ qt_delay (ts_t s) <> 0.
+Proof. exact TimingProofs.acquired_only_after_delay. Qed.
+Print Assumptions acquired_only_after_delay.
+(* after any sequence of setPreemptionTime calls (and everything else) the armed start time of a queue that is not
+   running is exactly (time of the change that armed it) + (delay in force) *)
+Theorem start_is_arming_time_plus_delay_in_force : forall ops q delay now0 st,
+  let s := trun true (tinit q delay now0) ops in
+  qt_running (ts_t s) = false -> qt_start (ts_t s) = Some st ->
+  exists a, ts_arm s = Some a /\ st = a + qt_delay (ts_t s) /\ qt_delay (ts_t s) <> 0.
+Proof. exact TimingProofs.start_is_arming_time_plus_delay_in_force. Qed.
+Print Assumptions start_is_arming_time_plus_delay_in_force.
+Theorem arming_time_not_in_future : forall fixed ops s, (forall d, In (TAdvance d) ops -> 0 <= d) -> arm_past s -> arm_past (trun fixed s ops).
+Proof. exact TimingProofs.arming_time_not_in_future. Qed.
+Print Assumptions arming_time_not_in_future.
+(* the code before the commit "fix: a quota change in different directions ..." kept the start time computed with the old
+   delay when the maximum was lowered for one type and raised for another (witness replayed on the real code:
+   corpus/preempt.json, last quota case) *)
+Theorem acquired_only_after_delay_refuted_pinned :
+  exists ops q delay now0, let s := trun false (tinit q delay now0) ops in
+    fst (tryAcquire (ts_now s) (ts_q s) (ts_t s)) = true /\
+    delay_elapsed (ts_arm s) (qt_delay (ts_t s)) (ts_now s) = false.
+Proof. exact acquired_only_after_delay_pinned_refuted. Qed.
+Print Assumptions acquired_only_after_delay_refuted_pinned.
 
 Theorem quota_never_crashes : forall w q, quota_contexts w q <> QCrash.
 Proof. exact QuotaProofs.quota_never_crashes. Qed.
